@@ -50,6 +50,11 @@ var zzC11Exprs = []string{
 	"*[/R/T]",
 	"//T[count(//x)>1]",
 	"/R | x",
+	// predicates on attribute steps (the context moves from one attribute to the next)
+	"//@a[.='1']",
+	"/R/T/@a[.='2']/..",
+	"//T[@a[.='1']]/x",
+	"//@*[name()='a']",
 	// string literals are taken verbatim (whitespace runs, tabs)
 	"//T[string-length('a  b')=4]",
 	"//*[contains('p\tq', '\t')]",
@@ -113,6 +118,48 @@ func C11XPathVsDOM() {
 			zz.Assert(got[i].Data == want[i].Data, "same node (name) at the same position of the result")
 			zz.Assert(got[i].InnerText() == want[i].InnerText(), "same string value")
 			zz.Assert((got[i].Type == AttributeNode) == (want[i].Type == xmlquery.AttributeNode), "same node kind")
+		}
+	}
+	zz.Cover("compared")
+}
+
+
+// C11XPathNs: the same comparison on a document with namespace prefixes: prefixed elements
+// carrying unprefixed and prefixed attributes.
+func C11XPathNs() {
+	exprs := []string{"/R/p:T/@a", "//@a", "//p:T[@a='1']", "//*[name(@a)='a']", "/R/T/@a", "//@p:b", "//p:T/@*", "//*[@p:b]"}
+	expr := exprs[zz.NondetChoice("expr", len(exprs))]
+	root := &zzX{name: "R", attrs: [][2]interface{}{{"xmlns:p", []byte("u:p")}}}
+	n := 1 + zz.NondetChoice("nkids", 2)
+	for i := 0; i < n; i++ {
+		k := &zzX{name: "T", kids: []*zzX{zzLeafX()}}
+		if zz.NondetBool("prefixed") {
+			k.prefix, k.uri = "p", "u:p"
+		}
+		if zz.NondetBool("attrA") {
+			k.attrs = append(k.attrs, [2]interface{}{"a", zzVal("av")})
+		}
+		if zz.NondetBool("attrPB") {
+			k.attrs = append(k.attrs, [2]interface{}{"p:b", zzVal("bv")})
+		}
+		root.kids = append(root.kids, k)
+	}
+	text := root.write(nil)
+	sp, err := NewXMLStreamReader(&zzChunkReader{data: text, failAt: -1}, "/*")
+	zz.Assume(err == nil)
+	rootElem, err := sp.Read()
+	zz.Assume(err == nil)
+	ref, err := xmlquery.Parse(&zzChunkReader{data: append([]byte{}, text...), failAt: -1})
+	zz.Assume(err == nil)
+	got, err := MatchAll(rootElem.Parent, expr)
+	zz.Assert(err == nil, "expression compiles")
+	want, err := xmlquery.QueryAll(ref, expr)
+	zz.Assume(err == nil)
+	zz.Observe("counts", expr, len(got), len(want))
+	zz.Assert(len(got) == len(want), "same number of nodes selected")
+	for i := range got {
+		if i < len(want) {
+			zz.Assert(got[i].Data == want[i].Data && got[i].InnerText() == want[i].InnerText(), "same node and string value at the same position")
 		}
 	}
 	zz.Cover("compared")
